@@ -34,6 +34,7 @@ def accumulators(ctx, rep, clause):
     from ..guards import dominating_tests
     an, program = ctx.analyzer, ctx.program
     n_lab = 0
+    labile_tables = []
     for fq, callee, fields in ((MASS, 'mod_mass', MOD_FIELDS), (SEQ_COMP, 'mod_comp', MOD_FIELDS),
                                (POP_DELTA, '_parse_mod_delta_mass_only', MOD_FIELDS)):
         f = program.func(fq)
@@ -52,6 +53,32 @@ def accumulators(ctx, rep, clause):
                guarded, 'control dependent on the ion type (precursor only)',
                'the labile modifications are accumulated for every ion type: the other calculator counts them '
                'for the precursor only, so the two disagree for fragment ions', g.loc(node), clause)
+            # ... and for which ion types: the tests that mention the ion type, decided for every ion type
+            from ..guards import GuardEval, UNK
+            table = {}
+            for it in ('p', 'n', 'a', 'b', 'c', 'x', 'y', 'z', 'i', 'by'):
+                v = True
+                for t, pol in dominating_tests(g.node, node):
+                    rt = cg.resolve(t)
+                    if 'ion_type' not in norm_stmt(rt):
+                        continue
+                    parts = rt.values if isinstance(rt, ast.BoolOp) and isinstance(rt.op, ast.And) and pol else [rt]
+                    for part in parts:
+                        if 'ion_type' not in norm_stmt(part):
+                            continue
+                        r = GuardEval({'ion_type': it}).eval(part)
+                        if r is UNK:
+                            v = UNK
+                        elif v is not UNK:
+                            v = v and (bool(r) == pol)
+                table[it] = v
+            if guarded and not any(v is UNK for v in table.values()):
+                counted = sorted(k for k, v in table.items() if v)
+                labile_tables.append((g.fq, counted))
+                ob(rep, 'SIB-guard', g.fq, f'the labile modifications are counted for the precursor only (in {fq.split(":")[1]})',
+                   counted == ['p'], "ion type 'p'",
+                   f'the labile modifications are counted for the ion types {counted}: the other calculator counts them '
+                   f"for 'p' only, so mass and composition + residual disagree for the other ones", g.loc(node), clause)
     rep.floor('SIB-guard', 'reads of the labile modifications that feed a resolver', n_lab, 3)
     # _pop_delta_mass_mods skips static rules: accepted only because its sole caller condenses them first
     callers = [k[0] for k, recs in an.calls.items() if k[1] == () and
@@ -212,6 +239,15 @@ def definition_pairing(ctx, rep, clause):
         ok = not other and sorted(num) == sorted([ratio or '?', 'neutral_mass']) and den == ['ISOTOPIC_AVERAGINE_MASS'] \
             and not dc.generators[0].ifs
         why = f'numerator {sorted(num)}, divisor {den}' + (f', non-linear part {other}' if other else '')
+        # the mass in the product is the mass that was asked for: the parameter is not re-bound (clamped, rounded,
+        # shifted) on the way
+        rebound = [x for x in walk_own(f.node) if isinstance(x, ast.Name) and isinstance(x.ctx, ast.Store) and
+                   x.id == 'neutral_mass']
+        if rebound:
+            ok = False
+            st_ = next((a for a in walk_own(f.node) if isinstance(a, (ast.Assign, ast.AugAssign)) and
+                        any(y is rebound[0] for y in ast.walk(a))), rebound[0])
+            why += f'; the mass is re-bound first: `{norm_stmt(st_)[:60]}`'
     ob(rep, 'SIB-def', f.fq, 'estimate = ratio * mass / ISOTOPIC_AVERAGINE_MASS over AVERAGINE_RATIOS', ok, why,
        f'the per-atom estimate is not the plain product ratio x neutral_mass / ISOTOPIC_AVERAGINE_MASS ({why}): the '
        f'estimated composition no longer has the requested mass (the residual it absorbs may be negative)', f.loc(),
